@@ -74,6 +74,8 @@ def enumerate_programs(tier):
     res = list(out)
     for name, p in PR.SCENARIOS.items():
         res.append((p, 0))
+    for p in PR.fanout_programs():
+        res.append((p, 4))
     return res, skipped
 
 
@@ -146,6 +148,8 @@ def run_unit(unit):
             out['counters'][k] = out['counters'].get(k, 0) + v
         out['counters']['programs_depth_%d' % depth] = out['counters'].get('programs_depth_%d' % depth, 0) + 1
         out['maxima']['scaled_adjoint_error_on_ok'] = max(out['maxima']['scaled_adjoint_error_on_ok'], r['worst'])
+        if r['worst'] > 1e-11:
+            out['maxima']['scaled_adjoint_error[%s]' % PR.prog_str(prog)] = r['worst']
     if unit['progs']:
         p, d = unit['progs'][len(unit['progs']) // 2]
         out['samples'] = [{'program': PR.prog_str(p), 'depth': d, 'curves': CURVES[unit['tier']]}]
